@@ -311,7 +311,8 @@ def conformance_job(ctx, invariants):
             lines_gen(6 if q else 8, 2, 2, ["Ru", "R"], blank=False, base=1),
             lines_gen(4 if q else 6, 2, 2, ["T", "F", "Pu"], unit="\t", base=1, suffix="é")]
     ctx.job("conformance", gens=gens, invariants=invariants,
-            ops=[{"op": "tokenize"}, {"op": "tree"}, {"op": "clean"}, {"op": "list_json"}, {"op": "list_all_json"}],
+            ops=[{"op": "tokenize"}, {"op": "tree"}, {"op": "clean"}, {"op": "list_json"}, {"op": "list_all_json"},
+                 {"op": "list"}, {"op": "list_all"}],
             cfg={"ds": "<", "de": ">"}, nontrivial=has_ready, fmt_hooks=True, conform=True)
 
 
